@@ -22,7 +22,7 @@ cp $d/patch.diff $d/demo.rs $d/NOTES.md $out/ 2>/dev/null
 # now the checks
 git -C /repo apply $d/patch.diff || { echo "$id: does not apply to /repo"; exit 2; }
 res=""
-for p in $prop $extra; do
+for p in $(echo $prop | cut -c1-3) $extra; do
   o=$(cd /verif && ./check $p quick 2>&1); c=$?
   sig=$(echo "$o" | grep -m1 -A1 '^VIOLATION' | tail -1 | cut -c1-260)
   echo "$id check $p exit=$c $sig"
@@ -32,7 +32,7 @@ git -C /repo checkout -- .
 python3 - "$id" "$prop" "$suite" "$demo_with" "$demo_without" "[${res%,}]" <<'PY'
 import json,sys
 id,prop,suite,dw,dwo,res=sys.argv[1:7]
-meta={"id":id,"breaks_property":prop,"origin":"independent sub-agent given only the property text and a scratch worktree",
+meta={"id":id,"breaks_property":prop[:3],"origin":"independent sub-agent given only the property text and a scratch worktree",
  "confirmed":{"existing_suite_with_mutation":suite,"demo_with_mutation":dw,"demo_without_mutation":dwo},
  "checks_run":json.loads(res),"needs_to_manifest":"see NOTES.md"}
 json.dump(meta,open(f"/verif/seeded/{id}/meta.json","w"),indent=1)
